@@ -103,22 +103,29 @@ impl<T> HostMatcher<T> {
         removed
     }
 
-    pub fn batch_remove(&mut self, ids: &HashSet<String>) -> bool {
-        self.any_host.batch_remove(ids);
+    /// Remove routes by ids, returns ids of routes really removed
+    pub fn batch_remove(&mut self, ids: &HashSet<String>) -> HashSet<String> {
+        let mut removed = self.any_host.batch_remove(ids);
 
         self.static_hosts.retain(|_, matcher| {
-            matcher.batch_remove(ids);
+            removed.extend(matcher.batch_remove(ids));
 
             !matcher.is_empty()
         });
+
+        // retain only accepts a Fn closure, so removed ids are kept in a cell
+        let removed_in_tree = std::cell::RefCell::new(HashSet::new());
 
         self.regex_tree_rule.retain(&|_, matcher| {
-            matcher.batch_remove(ids);
+            removed_in_tree.borrow_mut().extend(matcher.batch_remove(ids));
 
             !matcher.is_empty()
         });
 
-        self.any_host.is_empty() && self.static_hosts.is_empty() && self.regex_tree_rule.is_empty()
+        removed.extend(removed_in_tree.into_inner());
+        self.count -= removed.len();
+
+        removed
     }
 
     pub fn match_request(&self, request: &Request) -> Vec<Arc<Route<T>>> {
